@@ -13,6 +13,7 @@ Inductive tcall :=
 | TRun (input : list bool) (rspec wspec : option (N * cbres)) (lol : Z) (start_ip : N)
                                           (* rspec/wspec: from its k-th call on, read_bit / write_bit behaves as given *)
 | TLastOps                                (* read last_run_last_ops: the kept list *)
+| TOom (c : tcall)                        (* the call made while the process can get no more memory *)
 | TGet.                                   (* an attribute read: nothing but the observables to compare *)
 
 (* class: 0 ok, 1 ValueError, 2 MemoryError, 3 OverflowError, 4 TypeError, 5 error raised by a callback *)
@@ -46,7 +47,11 @@ Definition run_vals (r : run_out) : option (list N) :=
   | _ => None
   end.
 
-Definition model_call (ev : envv) (c : tcall) (s : st) : res (out (list N) * st) :=
+(* memory pressure: either nothing can be allocated, or only small blocks (served from the existing heap) can *)
+Definition al_none : alloc := fun _ _ => false.
+Definition al_small : alloc := fun _ bytes => bytes <? 65536.
+
+Fixpoint model_call_al (al_ok : alloc) (ev : envv) (c : tcall) (s : st) : res (out (list N) * st) :=
   match c with
   | TInit w f => (api_init w true f ;;; ret []) s
   | TAdd a b => (api_add_segment al_ok a b ;;; ret []) s
@@ -57,19 +62,33 @@ Definition model_call (ev : envv) (c : tcall) (s : st) : res (out (list N) * st)
                         match run_vals r with Some v => ret v | None => lift NoFuel end) s
   | TGet => ret [] s
   | TLastOps => ret (last_run_last_ops s) s
+  | TOom c' => model_call_al al_ok ev c' s
+  end.
+Definition model_call := model_call_al al_ok.
+
+(* does the model's outcome of one call agree with what was observed? *)
+Definition local_ok (o : tobs) (res_ : res (out (list N) * st)) : bool :=
+  match res_ with
+  | Ok (Val v, s') => (o_cls o =? 0) && (allocated_bytes s' =? o_alloc o) && (storage_mode s' =? o_mode o) && nlist_eqb v (o_vals o)
+  | Ok (Raise e, s') => (o_cls o =? exc_code e) && (allocated_bytes s' =? o_alloc o) && (storage_mode s' =? o_mode o)
+  | _ => false
   end.
 
 Fixpoint check_calls (ev : envv) (cs : list (tcall * tobs)) (s : st) : bool :=
   match cs with
   | [] => true
   | (c, o) :: r =>
-      match model_call ev c s with
-      | Ok (Val v, s') => (o_cls o =? 0) && (allocated_bytes s' =? o_alloc o) && (storage_mode s' =? o_mode o)
-                          && nlist_eqb v (o_vals o) && check_calls ev r s'
-      | Ok (Raise e, s') => (o_cls o =? exc_code e) && (allocated_bytes s' =? o_alloc o) && (storage_mode s' =? o_mode o)
-                            && check_calls ev r s'
-      | _ => false
-      end
+      let res_ :=
+        match c with
+        | TOom c' =>
+            (* a call under memory pressure that was served anyway is an ordinary call; a refused one must look like the model
+               with one of the two refusing allocators - the observables of the call itself tell which *)
+            if o_cls o =? 2 then
+              (let r1 := model_call_al al_small ev c' s in if local_ok o r1 then r1 else model_call_al al_none ev c' s)
+            else model_call ev c' s
+        | _ => model_call ev c s
+        end in
+      if local_ok o res_ then match res_ with Ok (_, s') => check_calls ev r s' | _ => false end else false
   end.
 
 (* a case: the process environment and the calls on one object created by the first TInit (all zero before it) *)
